@@ -39,6 +39,18 @@ fn c03_layout_independence() {
       for h in 0..6u64 { d.add(files[(h % 3) as usize], h, &chain[h as usize], ST_ACTIVE); }
       d.set_file_name(3, "blk3.dat"); d.set_file_name(70000, "blk70000.dat"); d.set_file_name(123456789, "blk000123456789.dat");
       d.write(); cmp_delivery(suite, "C03:block_comes_from_file_and_offset_of_its_index_record", "3 files (3, 70000, 123456789), mixed name padding", fetch_all(&d, "bitcoin", 6, false), &want); }
+    // (b') heights are not dense: the only record of height g carries no block data (header-only), heights above it do --
+    // the record of a height is looked up by height, never by position
+    for g in [1u64, 3, 4] { cases += 1; let mut d = DataDir::new();
+      for h in 0..6u64 { d.add((h % 2) as u64, h, &chain[h as usize], ST_ACTIVE); }
+      for r in d.recs.iter_mut() { if r.height == g { r.status = ST_HEADER_ONLY; r.ntx = 0; } }
+      d.write();
+      let inp = format!("2 files, height {} header-only, heights above it with data", g);
+      match fetch(d.path(), "bitcoin", 0, None, false, &[0, 1, 2, 3, 4, 5]) {
+          Err(m) => fail(suite, "C03:block_comes_from_file_and_offset_of_its_index_record", &inp, &m, "index loads"),
+          Ok(v) => { let g_: Vec<String> = v.iter().map(|r| match r { Ok(Some(h)) => short(h), Ok(None) => "none".into(), Err(e) => format!("ERR {}", e) }).collect();
+              let w: Vec<String> = (0..6u64).map(|h| if h == g { "none".to_string() } else { short(&want[h as usize]) }).collect();
+              check(g_ == w, suite, "C03:block_comes_from_file_and_offset_of_its_index_record", &inp, &format!("{:?}", g_), &format!("{:?}", w)); } } }
     // (c) unindexed foreign blocks in between, foreign index keys, foreign files in the directory
     { cases += 1; let mut d = DataDir::new();
       let foreign = make_chain(3, &mut |_| vec![TxSpec::new(vec![TxIn::new([7; 32], 0, vec![1, 2, 3])], vec![TxOut::new(1, vec![0x51])])]);
@@ -139,6 +151,21 @@ fn c04_competitor_records() {
       let n = got.as_ref().map(|v| v.iter().filter(|e| matches!(e, Event::Block(..))).count()).unwrap_or(0);
       cases += 1;
       check(n == 5, suite, "C04:header_only_records_beyond_tip_do_not_extend_the_run", "header-only record at height 9 beyond tip 4", &format!("{} blocks delivered ({:?})", n, got.as_ref().err()), "5 blocks"); }
+    // a gap in the downloaded blocks (headers-first sync stopped midway): the ONLY record of height g is header-only while
+    // the heights above it have data -- no other height's record may stand in for g, and the driver stops before the gap
+    for g in [1u64, 2, 3] { for core_shaped in [false, true] { cases += 1; let mut d = simple_dir(&chain);
+      for r in d.recs.iter_mut() { if r.height == g { r.status = ST_HEADER_ONLY; r.ntx = 0; if core_shaped { r.header = Some([0x11; 80]); } } }
+      d.write();
+      let inp = format!("heights 0..=4, height {} header-only{} (a gap below the tip)", g, if core_shaped { " (Core-shaped record)" } else { "" });
+      match fetch(d.path(), "bitcoin", 0, None, false, &[0, 1, 2, 3, 4]) {
+          Err(m) => fail(suite, "C04:gap_height_is_never_filled_by_another_record", &inp, &m, "index loads"),
+          Ok(v) => { let g_: Vec<String> = v.iter().map(|r| match r { Ok(Some(h)) => short(h), Ok(None) => "none".into(), Err(e) => format!("ERR {}", e) }).collect();
+              let w: Vec<String> = (0..5u64).map(|h| if h == g { "none".to_string() } else { short(&want[h as usize]) }).collect();
+              check(g_ == w, suite, "C04:gap_height_is_never_filled_by_another_record", &inp, &format!("{:?}", g_), &format!("{:?}", w)); } }
+      let got = drive(d.path(), "bitcoin", 0, None, false);
+      let blocks: Vec<(u64, String)> = got.as_ref().map(|v| v.iter().filter_map(|e| if let Event::Block(h, x) = e { Some((*h, short(x))) } else { None }).collect()).unwrap_or_default();
+      let wantb: Vec<(u64, String)> = (0..g).map(|h| (h, short(&want[h as usize]))).collect();
+      check(got.is_ok() && blocks == wantb, suite, "C04:gap_height_is_never_filled_by_another_record", &format!("{} -- through the driver", inp), &format!("{:?} ({:?})", blocks, got.as_ref().err()), &format!("{:?}", wantb)); } }
     // Core-shaped header-only records (no nFile / nDataPos fields: the stored 80-byte header follows the tx count directly)
     // whose header bytes are anything at all -- version 0xffffffff, a prev-hash of 0xff bytes, all zero, random
     { cases += 1; let mut d = simple_dir(&chain);
